@@ -265,7 +265,7 @@ def check(run, res, sc, livelock, t_stop):
                             need = (h.get('cancellation_backoff') or 0.0)
                             # (finding B also covers a forced removal in the middle of the staged termination: after the DELETED
                             #  event the object's memory is forgotten and nobody drives the remaining stages)
-                            gone_at = [t for (t, typ, rv, tick) in evs if typ == 'DELETED']
+                            gone_at = [t for (t, typ, rv, tick) in evs if typ == 'DELETED' and vers.get(rv) is not None and vers[rv]['writer'] == 'env']
                             orphaned = any(k == 'vanished' for (t, k, who, tick) in triggers4) or \
                                 any(t <= t_req + need + h['cancellation_timeout'] + EPS for t in gone_at)
                             paused = any(p0 <= t_req + need + 1.0 and (p1 is None or p1 >= t_req) for (p0, p1) in pauses)
